@@ -1152,7 +1152,17 @@ impl World {
         const STATE_ANCHOR: &[u8] = b"__SCRUT_TEMP_STATE_PATH=\"";
         if self.procs[pi].commands_started == 0 && trimmed.starts_with(STATE_ANCHOR) && trimmed.ends_with(b"\"") {
             let v = &trimmed[STATE_ANCHOR.len()..trimmed.len() - 1];
-            self.procs[pi].state_dir = Some(String::from_utf8_lossy(v).into_owned());
+            // (within double quotes a backslash protects `$`, a backtick, `"` and itself)
+            let mut plain = Vec::with_capacity(v.len());
+            let mut i = 0;
+            while i < v.len() {
+                if v[i] == b'\\' && i + 1 < v.len() && matches!(v[i + 1], b'$' | b'`' | b'"' | b'\\') {
+                    i += 1;
+                }
+                plain.push(v[i]);
+                i += 1;
+            }
+            self.procs[pi].state_dir = Some(String::from_utf8_lossy(&plain).into_owned());
             self.procs[pi].mode = Mode::Template;
             return;
         }
